@@ -104,6 +104,9 @@ def model_summary(m, limit=40):
 def sym_table(ctx, name, nmin=1):
     """a source table with at least nmin rows; every row has length >= 0"""
     t = STable(name)
+    if not hasattr(ctx, 'tables'):
+        ctx.tables = []
+    ctx.tables.append(t)
     ctx.assume(t.n >= nmin)
     j = smt.fresh_int('r')
     ctx.facts.append(z3.ForAll([j], smt.seq_len(z3.Select(t.rows, j)) >= 0))
